@@ -251,8 +251,13 @@ def render(spec):
         w("#[pavex::error_handler(id = \"%s_EH%s%d\")]" % (U, tag.upper(), i))
         w("pub fn eh%s%d(e: &%s) -> Response { log(format!(\"eh %s.%s%d\")); Response::internal_server_error() }" % (tag, i, e, M, tag, i))
 
+    # constructors listed in spec["ctor_imports"] ({constructor index (str): group}) live in a sub-module per group and
+    # are registered with `bp.import(from![..])` wherever a `ctor` op names them (C04)
+    ctor_imports = {int(k): v for k, v in (spec.get("ctor_imports") or {}).items()}
+    cgroup_src = {}
     for c in spec["ctors"]:
         i = c["i"]
+        _cstart = len(o)
         t = spec["types"][i]
         life = {"request": "request_scoped", "singleton": "singleton", "transient": "transient"}[c["life"]]
         args = ["id = \"%s_C%d\"" % (U, i)]
@@ -286,6 +291,15 @@ def render(spec):
         else:
             body += " " + build
         w("pub %sfn c%d%s(%s) -> %s { %s }" % ("async " if c["async"] else "", i, gen, params, ret, body))
+        if i in ctor_imports and not c["fallible"]:
+            cgroup_src.setdefault(ctor_imports[i], []).extend(o[_cstart:])
+            del o[_cstart:]
+    for g, ls in sorted(cgroup_src.items()):
+        w("pub mod cg%d {" % g)
+        w("    use super::*;")
+        for l in ls:
+            w("    " + l)
+        w("}")
     w("")
     # handlers listed in spec["route_imports"] ({handler index (str): group}) live in a sub-module per group and are
     # registered with one `bp.routes(from![..])` import where the group's first `route` op stands (C05)
@@ -367,7 +381,9 @@ def render(spec):
         ind = "    " * (depth + 1)
         for op in ops:
             k = op[0]
-            if k == "ctor":
+            if k == "ctor" and op[1] in ctor_imports and not spec["ctors"][op[1]]["fallible"]:
+                w("%s%s.import(pavex::blueprint::from![crate::%s::cg%d]);" % (ind, var, M, ctor_imports[op[1]]))
+            elif k == "ctor":
                 w("%s%s.constructor(%s_C%d);" % (ind, var, U, op[1]))
             elif k == "wrap":
                 w("%s%s.wrap(%s_M%d);" % (ind, var, U, op[1]))
